@@ -46,7 +46,7 @@ Transfer(a, b, typ) == [from_stop_id |-> Id(a), to_stop_id |-> Id(b), transfer_t
 BaseFeed ==
     "agency.txt" :> <<Agency(1, 1, 1), Agency(2, 2, 3)>>
  @@ "routes.txt" :> <<Route(1, 1, 1), Route(3, 2, 3)>>
- @@ "stops.txt" :> <<Stop(3, Blank, 1, 1), Stop(4, Id(3), 0, 0), Stop(5, Id(3), 4, 2), Stop(1, Blank, 0, 0)>>
+ @@ "stops.txt" :> <<Stop(3, Blank, 1, 1), Stop(4, Id(3), 0, 0), Stop(5, Id(4), 4, 2), Stop(1, Blank, 0, 0)>>   \* station <- platform <- boarding area
  @@ "transfers.txt" :> <<Transfer(4, 5, 2), Transfer(5, 1, 0)>>
  @@ "calendar.txt" :> <<Calendar(3, 2, 5), Calendar(1, 1, 7)>>
  @@ "calendar_dates.txt" :> <<CalDate(3, D(6), Num(1)), CalDate(2, D(3), Num(2)), CalDate(3, D(1), Num(2)), CalDate(2, D(4), Num(1))>>
@@ -66,7 +66,7 @@ MkCase(feed, inherit, base, baseInherit, rel, pres) ==
 WithEmpty(c, files) == [c EXCEPT !.empty = files]
 
 (* ---------------- C01: one cell at a time, every column, well formed ---------------- *)
-Texts == {Id(k) : k \in 1..7}
+Texts == {Id(k) : k \in 1..8}
 Enum(S) == {Num(d) : d \in S}
 Times == {T(0, 0, 0), T(9, 5, 3), T(23, 59, 59), T(24, 0, 0), T(25, 10, 5), T(47, 59, 59), T(100, 0, 0)}
 Decs == {Dec(k) : k \in 1..9}
@@ -134,6 +134,11 @@ PoolC03refs(z) ==
                        HTrip(Id(5), Id(3), Id(3), Id(4))}, 2, 3)}
     \cup {MkCase(SetRows(SetRows(BaseFeed, "agency.txt", <<Agency(1, 1, 1)>>), "routes.txt", rq), FALSE, NoBase, FALSE, "", 0) :
             rq \in SeqsOf({HRoute(Id(1), Id(1)), HRoute(Id(3), Blank), HRoute(Id(3), Id(2)), HRoute(Id(1), Id(3))}, 1, 2)}
+    \cup (* a station whose coordinates are not numbers (it is a stop all the same) and the stops that name it as their parent *)
+    {MkCase(SetRows(BaseFeed, "stops.txt", q), i, NoBase, FALSE, "", 0)
+        : i \in BOOLEAN,
+          q \in {<<Stop(3, Blank, 1, 1) ++ [stop_lat |-> Bad(1)], Stop(4, Id(3), 0, 0), Stop(5, Id(3), 0, 2), Stop(1, Blank, 0, 0)>>,
+                  <<Stop(4, Id(3), 0, 0), Stop(1, Blank, 0, 0), Stop(5, Id(3), 0, 0), Stop(3, Blank, 1, 2) ++ [stop_lon |-> Bad(5), stop_lat |-> Bad(1)]>>}}
     \cup (* ids that differ only by a trailing blank are different ids (tokens 5-7 of the id pools): references to them dangle *)
     {MkCase(SetRows(SetRows(BaseFeed, "routes.txt", rq), "trips.txt", tq), FALSE, NoBase, FALSE, "", 0) :
         rq \in SeqsOf({HRoute(Id(1), Id(1)), HRoute(Id(5), Id(1)), HRoute(Id(3), Id(4))}, 1, 2),
@@ -204,6 +209,14 @@ PoolC09oneAgency(z) ==
 PoolC09agencyPairs(z) ==
     {MkCase(SetRows(BaseFeed, "agency.txt", InsRow(InsRow(BaseFeed["agency.txt"], k, b), k2, b2)), FALSE, <<BaseFeed>>, FALSE, "C09.inert", 0)
         : k \in {0, 1}, k2 \in {1, 3}, b \in BadRows("agency.txt"), b2 \in BadRows("agency.txt")}
+(* the same unparseable date in two rows (a parser that remembers what it decoded must remember failures as failures) *)
+PoolC09sameBadTwice(z) ==
+    {MkCase(SetRows(BaseFeed, "calendar_dates.txt", InsRow(InsRow(BaseFeed["calendar_dates.txt"], k, CalDate(3, Bad(3), Num(1))), k2, CalDate(2, Bad(3), Num(2)))), FALSE, <<BaseFeed>>, FALSE, "C09.inert", 0)
+        : k \in {0, 2}, k2 \in {1, 3, 5}}
+    \cup {MkCase(SetRows(BaseFeed, "calendar.txt", InsRow(InsRow(BaseFeed["calendar.txt"], k, Calendar(4, 1, 8) ++ [start_date |-> Bad(3)]), k2, Calendar(5, 1, 8) ++ [end_date |-> Bad(3)])), FALSE, <<BaseFeed>>, FALSE, "C09.inert", 0)
+        : k \in {0, 1}, k2 \in {1, 3}}
+    \cup {MkCase(SetRows(BaseFeed, "stop_times.txt", InsRow(InsRow(BaseFeed["stop_times.txt"], k, StopTime(1, 4, 50, Bad(2), Bad(2))), k2, StopTime(2, 4, 51, Bad(2), Bad(2)))), FALSE, <<BaseFeed>>, FALSE, "C09.inert", 0)
+        : k \in {0, 2}, k2 \in {1, 5}}
 PoolC09multiline(z) ==
     {MkCase(SetRows(BaseFeed, "agency.txt", InsRow(<<Agency(1, 3, 1), Agency(2, 2, 3)>>, k, b)), FALSE, <<SetRows(BaseFeed, "agency.txt", <<Agency(1, 3, 1), Agency(2, 2, 3)>>)>>, FALSE, "C09.inert", 2)
         : k \in 0..2, b \in BadRows("agency.txt") \cup {Agency(3, 3, 1) ++ [agency_url |-> Blank]}}
@@ -221,6 +234,9 @@ Defaults == { <<"routes.txt", "route_color", Id(1)>>, <<"routes.txt", "route_tex
 AllRows(feed, f, col, c) == [feed EXCEPT ![f] = [i \in DOMAIN feed[f] |-> [feed[f][i] EXCEPT ![col] = c]]]
 EvenRows(feed, f, col, c) == [feed EXCEPT ![f] = [i \in DOMAIN feed[f] |-> IF i % 2 = 0 THEN [feed[f][i] EXCEPT ![col] = c] ELSE feed[f][i]]]
 OddRows(feed, f, col, c) == [feed EXCEPT ![f] = [i \in DOMAIN feed[f] |-> IF i % 2 = 1 THEN [feed[f][i] EXCEPT ![col] = c] ELSE feed[f][i]]]
+OneSided == SetCell(SetCell(BaseFeed, "stop_times.txt", 1, "arrival_time", Blank), "stop_times.txt", 3, "departure_time", Blank)
+OneSidedFilled == SetCell(SetCell(BaseFeed, "stop_times.txt", 1, "arrival_time", BaseFeed["stop_times.txt"][1]["departure_time"]),
+                          "stop_times.txt", 3, "departure_time", BaseFeed["stop_times.txt"][3]["arrival_time"])
 PoolC10(z) ==
     UNION {{ MkCase(DropCol(BaseFeed, d[1], d[2]), i, <<AllRows(BaseFeed, d[1], d[2], d[3])>>, i, "C10.equal", 1),
              MkCase(AllRows(BaseFeed, d[1], d[2], Blank), i, <<AllRows(BaseFeed, d[1], d[2], d[3])>>, i, "C10.equal", 1),
@@ -239,6 +255,9 @@ PoolC10(z) ==
         : a \in {"arrival_time", "departure_time"}, b \in {"arrival_time", "departure_time"}}
     \cup {MkCase(DropCol(BaseFeed, "stop_times.txt", a), FALSE,
                  <<AllRows(BaseFeed, "stop_times.txt", a, Blank)>>, FALSE, "C10.equal", 1) : a \in {"arrival_time", "departure_time"}}
+    \cup (* ... and the default of timepoint does not depend on which of the two times a row gives *)
+    {MkCase(f, FALSE, <<AllRows(OneSidedFilled, "stop_times.txt", "timepoint", Num(1))>>, FALSE, "C10.equal", 1)
+        : f \in {DropCol(OneSided, "stop_times.txt", "timepoint"), AllRows(OneSided, "stop_times.txt", "timepoint", Blank)}}
     \cup (* wheelchair inheritance: child value x parent value x parent type x own type *)
     {MkCase(SetRows(BaseFeed, "stops.txt", <<Stop(3, Blank, pt, pw), Stop(4, Id(3), ct, cw) ++ [stop_timezone |-> Blank], Stop(5, Id(3), 0, cw2) ++ [stop_timezone |-> Blank, stop_desc |-> Blank], Stop(1, par, 0, 0)>>), TRUE,
             <<SetRows(BaseFeed, "stops.txt", <<Stop(3, Blank, pt, pw), Stop(4, Id(3), ct, cw) ++ [stop_timezone |-> Blank], Stop(5, Id(3), 0, cw2) ++ [stop_timezone |-> Blank, stop_desc |-> Blank], Stop(1, par, 0, 0)>>)>>, FALSE, "C10.inherit", 0)
@@ -308,7 +327,7 @@ PoolStructure(z) ==
           WithEmpty(MkCase(BaseFeed, FALSE, NoBase, FALSE, "", 0), <<"transfers.txt", "shapes.txt">>)}
 
 Cases == CASE Pool = "C01" -> PoolC01(0) [] Pool = "C03stops" -> PoolC03stops(0) [] Pool = "C03refs" -> PoolC03refs(0) [] Pool = "C08" -> PoolC08(0) [] Pool = "C08files" -> PoolC08files(0) [] Pool = "C08shape5" -> PoolC08shape5(0)
-           [] Pool = "C09" -> PoolC09(0) \cup PoolC09multiline(0) \cup PoolC09oneAgency(0) \cup PoolC09agencyPairs(0) [] Pool = "C09pairs" -> PoolC09pairs(0) [] Pool = "C10" -> PoolC10(0) [] Pool = "C11" -> PoolC11(0) [] Pool = "C11q" -> PoolC11(1) [] Pool = "C11b" -> PoolC11b(0) [] Pool = "C05cyc" -> PoolC05cyc(0) [] Pool = "structure" -> PoolStructure(0) [] Pool = "C05" -> PoolC05(Garbage) [] Pool = "C05q" -> PoolC05(GarbageQuick)
+           [] Pool = "C09" -> PoolC09(0) \cup PoolC09multiline(0) \cup PoolC09oneAgency(0) \cup PoolC09agencyPairs(0) \cup PoolC09sameBadTwice(0) [] Pool = "C09pairs" -> PoolC09pairs(0) [] Pool = "C10" -> PoolC10(0) [] Pool = "C11" -> PoolC11(0) [] Pool = "C11q" -> PoolC11(1) [] Pool = "C11b" -> PoolC11b(0) [] Pool = "C05cyc" -> PoolC05cyc(0) [] Pool = "structure" -> PoolStructure(0) [] Pool = "C05" -> PoolC05(Garbage) [] Pool = "C05q" -> PoolC05(GarbageQuick)
 
 (* ---------------- the machine ---------------- *)
 Init == /\ case \in Cases /\ fi = 1 /\ ri = 1 /\ st = EmptySt /\ pc = "rows"
